@@ -10,7 +10,9 @@ from orquestra.quantum.operators import PauliTerm, PauliSum
 Hn = Harness("C16", ["OQ.Base.CaseEq", "OQ.Pauli.Algebra", "OQ.Pauli.Evolution", "OQ.Pauli.EvolutionCases"],
              "term cases: random Pauli terms on <= 4 acted qubits with gaps (indices up to 6), dyadic real coefficients, "
              "constants, small and large imaginary parts of either sign, dyadic times; evolution cases: sums of 1-4 terms, "
-             "1-4 steps; derivative cases: same with 1-3 steps; compared: the operation list (gate kind, qubits, RZ angle as an "
+             "1-4 steps, regularly with constant terms c*I (first/middle/last position); derivative cases: same with 1-3 steps, "
+             "constants included (the code's factors +c/N, -c/N), tiny imaginary parts (warning branch), and a separate stream "
+             "with a zero real coefficient (ZeroDivisionError expected) or a rejected imaginary part (ValueError expected); compared: the operation list (gate kind, qubits, RZ angle as an "
              "exact rational, shifted angles as rational + k*pi/2) against the model; oracle: scipy expm for terms, ordered "
              "product for sums, central finite differences for the derivative circuits with random observable and state; "
              "non-trivial = at least two acted qubits or two terms",
@@ -87,22 +89,66 @@ def gen_term(rng, big=False):
     im = [0, 1] if r < 0.8 else ([rng.choice([1, -1]), 10 ** 10] if r < 0.87 else [rng.choice([1, -1, 2, -3]), rng.choice([1, 2, 1000])])
     return dict(ops=ops, re=re, im=im)
 
+def gen_const(rng):
+    return dict(ops={}, re=[rng.choice([-5, -3, -1, 1, 2, 3, 7]), rng.choice([1, 2, 4, 8])], im=[0, 1])
+
+def add_constants(rng, terms):
+    """constant terms c*I (c != 0) in first / middle / last position"""
+    r = rng.random()
+    if r < 0.45:
+        return terms
+    where = rng.choice(["first", "middle", "last", "first+last"])
+    if where in ("first", "first+last"):
+        terms.insert(0, gen_const(rng))
+    if where == "middle":
+        terms.insert(len(terms) // 2 if len(terms) > 1 else rng.randint(0, len(terms)), gen_const(rng))
+    if where in ("last", "first+last"):
+        terms.append(gen_const(rng))
+    return terms
+
 def gen(rng, tier):
     n = 260 if tier == "quick" else 5000
     for _ in range(n):
         r = rng.random()
         t = [rng.randint(-20, 20), rng.choice([1, 2, 4, 8])]
-        if r < 0.45:
+        if r < 0.40:
             yield dict(kind="term", term=gen_term(rng), t=t)
-        elif r < 0.75:
+        elif r < 0.65:
             terms = [gen_term(rng, big=True) for _ in range(rng.randint(1, 4))]
             if rng.random() < 0.2:
                 terms.insert(rng.randint(0, len(terms)), dict(rng.choice(terms)))
+            terms = add_constants(rng, terms)
             yield dict(kind="evolution", terms=terms, t=t, steps=rng.randint(1, 4))
-        else:
+        elif r < 0.92:
             terms = [dict(gen_term(rng, big=True), im=[0, 1]) for _ in range(rng.randint(1, 3))]
             if rng.random() < 0.35:      # the same term listed twice (e.g. a symmetric splitting): selected by index, not by value
                 terms.insert(rng.randint(0, len(terms)), dict(rng.choice(terms)))
+            if rng.random() < 0.15:      # imaginary part below the 1e-9 tolerance: a warning, the real part is used
+                k = rng.randrange(len(terms))
+                terms[k] = dict(terms[k], im=[rng.choice([1, -1]), 10 ** 10])
+            terms = add_constants(rng, terms)
+            yield dict(kind="derivative", terms=terms, t=t, steps=rng.randint(1, 3), oseed=rng.randint(0, 10 ** 6))
+        else:
+            # the call must raise: a zero real coefficient (constant or not; ZeroDivisionError from pi / (4 r)),
+            # or a non-constant term whose imaginary part is above the tolerance (ValueError from time_evolution_for_term)
+            terms = [dict(gen_term(rng, big=True), im=[0, 1]) for _ in range(rng.randint(1, 3))]
+            terms = add_constants(rng, terms)
+            k = rng.randrange(len(terms))
+            mode = rng.choice(["zero", "zero", "zero-const", "imag", "zero-imag"])
+            if mode == "zero":
+                nc = [i for i, sp in enumerate(terms) if sp["ops"]]
+                k = rng.choice(nc)
+                terms[k] = dict(terms[k], re=[0, 1])
+            elif mode == "zero-const":
+                terms.insert(rng.randint(0, len(terms)), dict(ops={}, re=[0, 1], im=[0, 1]))
+            elif mode == "imag":
+                nc = [i for i, sp in enumerate(terms) if sp["ops"]]
+                k = rng.choice(nc)
+                terms[k] = dict(terms[k], im=[rng.choice([1, -1, 2, -3]), rng.choice([1, 2, 1000])])
+            else:   # zero real part with a tiny imaginary part: still a division by zero
+                nc = [i for i, sp in enumerate(terms) if sp["ops"]]
+                k = rng.choice(nc)
+                terms[k] = dict(terms[k], re=[0, 1], im=[rng.choice([1, -1]), 10 ** 10])
             yield dict(kind="derivative", terms=terms, t=t, steps=rng.randint(1, 3), oseed=rng.randint(0, 10 ** 6))
 
 def run_case(inp):
@@ -162,6 +208,8 @@ def run_case(inp):
             U = unitary(out, nq)
             step = np.eye(2 ** nq, dtype=complex)
             for sp in inp["terms"]:
+                if not sp["ops"]:
+                    continue      # a constant term gives the empty circuit (its global phase is dropped)
                 P = pauli_matrix({int(k): v for k, v in sp["ops"].items()}, nq)
                 step = scipy.linalg.expm(-1j * float(t) / steps * float(Fraction(*sp["re"])) * P) @ step
             E = np.linalg.matrix_power(step, steps)
@@ -170,13 +218,30 @@ def run_case(inp):
         return dict(chk=chk, oracle_ok=ok, oracle_msg=msg, kind="evolution" + ("-rejected" if st != "ok" else ""), nontrivial=len(terms) >= 2)
     if kind == "derivative":
         st, out = outcome(time_evolution_derivatives, H, float(t), "Trotter", steps)
+        zero = any(Fraction(*sp["re"]) == 0 for sp in inp["terms"])          # r = c / n_steps = 0: pi / (4 r) raises
+        bad_im = any(sp["ops"] and abs(Fraction(*sp["im"])) > Fraction(1, 10 ** 9) for sp in inp["terms"])
+        nconst = sum(1 for sp in inp["terms"] if not sp["ops"])
         if st != "ok":
-            return dict(chk="false", oracle_ok=False, oracle_msg=f"time_evolution_derivatives raised {out}", kind="derivative-error")
+            chk = f"derivative_case {cterms} {cq(t)} {cnat(steps)} None"
+            ok, msg = True, ""
+            if not (zero or bad_im):
+                ok, msg = False, f"time_evolution_derivatives raised {out}"
+            elif out not in ("ZeroDivisionError", "ValueError"):
+                ok, msg = False, f"time_evolution_derivatives raised {out} (ZeroDivisionError or ValueError expected)"
+            elif out == "ZeroDivisionError" and not zero:
+                ok, msg = False, "ZeroDivisionError without a zero coefficient"
+            elif out == "ValueError" and not bad_im:
+                ok, msg = False, "ValueError without a rejected imaginary part"
+            return dict(chk=chk, oracle_ok=ok, oracle_msg=msg,
+                        kind="derivative-zero-coefficient" if out == "ZeroDivisionError" else "derivative-rejected",
+                        nontrivial=len(terms) >= 2 or steps >= 2)
         circuits, factors = out
         entries = [cpair(cq(near(float(f), 64 * steps)), "(Some " + dump(c, True, 64 * steps) + ")") for f, c in zip(factors, circuits)]
-        chk = f"derivative_case {cterms} {cq(t)} {cnat(steps)} {clist(entries)}"
+        chk = f"derivative_case {cterms} {cq(t)} {cnat(steps)} (Some {clist(entries)})"
         ok, msg = True, ""
-        if 1 <= nq <= 3 and len(circuits) == len(factors):
+        if zero or bad_im:
+            ok, msg = False, "a zero coefficient or a rejected imaginary part was accepted by time_evolution_derivatives"
+        elif 1 <= nq <= 3 and len(circuits) == len(factors):
             rs = np.random.RandomState(inp["oseed"])
             d = 2 ** nq
             A = rs.randn(d, d) + 1j * rs.randn(d, d); O = A + A.conj().T
@@ -190,7 +255,8 @@ def run_case(inp):
                 ok, msg = False, f"factor-weighted sum {lhs:.8f} differs from d/dt of the expectation {rhs:.8f} (steps={steps})"
         elif len(circuits) != len(factors):
             ok, msg = False, "circuits and factors of different length"
-        return dict(chk=chk, oracle_ok=ok, oracle_msg=msg, kind=f"derivative-steps{steps}", nontrivial=len(terms) >= 2 or steps >= 2)
+        return dict(chk=chk, oracle_ok=ok, oracle_msg=msg,
+                    kind=f"derivative-steps{steps}" + ("-const" if nconst else ""), nontrivial=len(terms) >= 2 or steps >= 2)
     raise ValueError(kind)
 
 def w_f19():
